@@ -14,6 +14,7 @@ from vf.gen.simple import glass
 
 sel = st.integers(0, 1000)
 KINDS = ('index', 'radius', 'thickness', 'stop', 'conic')
+ALL_KINDS = KINDS + ('tilt', 'decenter')
 
 
 def edit_strategy(kinds=KINDS, p_none=1):
@@ -64,6 +65,18 @@ def apply_edit(o, spec, ed, keep_image_medium=False):
         S[k - 1]['t'] = S[k - 1]['t'] * f
         o.set_thickness(S[k - 1]['t'], k)
         return s2
+    if kind in ('tilt', 'decenter'):
+        # through the optimisation variable, the public handle for these two quantities
+        from optiland.optimization.variable.variable import Variable
+        cand = [k for k in range(1, K + 1) if not is_m[k - 1] or True]
+        k = cand[ed['s'] % len(cand)]
+        axis = 'x' if ed['s'] % 2 == 0 else 'y'
+        key = ('r' if kind == 'tilt' else 'd') + axis
+        S[k - 1][key] = round(S[k - 1][key] + (f - 1.0) * (0.2 if kind == 'tilt' else 0.5 * float(S[k - 1].get('hd') or 1.0)), 9)
+        if S[k - 1][key] == spec['surfs'][k - 1][key]:
+            return None
+        Variable(o, kind, surface_number=k, axis=axis, apply_scaling=False).update(S[k - 1][key])
+        return s2
     if kind == 'stop':
         cur = [i for i, q in enumerate(S) if q['stop']]
         cand = [i for i in range(K) if i not in cur]
@@ -77,3 +90,35 @@ def apply_edit(o, spec, ed, keep_image_medium=False):
         S[j]['stop'] = True
         return s2
     return None
+
+
+def build_with_history(spec, ed, warm=None, build_fn=None, **kw):
+    """Builds the lens of `spec`; with an edit, queries it first (`warm(o)`: whatever fills the library's caches), then
+    applies the edit to the same Optic.  Returns (optic, spec the optic now realises, edited?).  The caller judges the
+    optic against the returned spec only."""
+    from vf.gen.build import build
+    o = (build_fn or build)(spec)
+    if not ed:
+        return o, spec, False
+    if warm is not None:
+        try:
+            warm(o)
+        except Exception:  # noqa  (whatever the warm-up query does on this lens is judged elsewhere)
+            pass
+    s2 = apply_edit(o, spec, ed, **kw)
+    if s2 is None:
+        return o, spec, False
+    return o, s2, True
+
+
+def warm_all(o):
+    """queries that touch the paraxial, real-ray and aberration code paths once"""
+    import numpy as np
+    w = o.primary_wavelength
+    P = o.paraxial
+    P.f2(), P.F1(), P.EPL(), P.EPD(), P.XPL(), P.XPD(), P.magnification(), P.invariant()
+    P.marginal_ray(), P.chief_ray()
+    f = o.fields.get_field_coords()[-1]
+    o.trace(f[0], f[1], w, 2, 'hexapolar')
+    o.trace_generic(np.zeros(2), np.array([0.0, 1.0]), np.zeros(2), np.array([0.5, 0.0]), w)
+    o.aberrations.seidels()
